@@ -452,7 +452,10 @@ func (w *world) insert(b *types.Block, what string) string {
 // tells whether the assembler kept txs[i]. status: "ok", "all-discarded" (nothing to deliver),
 // "node-rejected" or "node-not-stable".
 func (w *world) deliver(txs types.Transactions, extra string) (packaged []bool, status string) {
-	key := w.head.Hash().Hex() + "|" + extra
+	// the transactions' expiration (and so their hashes, which name the asset ids they create)
+	// depends on the position of the event in the history, and a discarded event advances the
+	// position without moving the head: the position is part of the key
+	key := fmt.Sprintf("%s|%d|%s", w.head.Hash().Hex(), w.pos, extra)
 	bl := fac.cache[key]
 	if bl == nil || freshFactory {
 		b, _, err := w.f.Make(node.BlockSpec{Parent: w.head, Miner: node.Deputy(0), Time: w.head.Time() + 10, Txs: txs, Extra: extra})
